@@ -293,6 +293,11 @@ def explore(ctx, res, replay=None):
             for s in ('x := 7 ; SAVE x AROUND ZERO y END', 'x := 5 ; SAVE x AROUND SEVEN y DO x := 1 END END ; z := x', 'SEVEN a DO SAVE a AROUND ZERO b END END',
                       'NOP ; SAVE x AROUND NOP ; ZERO y END ; NOP', 'ZERO a ; ZERO b ; SAVE a AROUND ZERO a END'):
                 add('hygiene_sameline', [one_line], s, list(range(1, 9)))
+            # a macro body spread over several lines: the same #n on different lines of one body is one variable
+            multi = ['DEFINE SAVE <ID> AROUND <P> END AS #0 := $0 ;', '$1 ;', '', '$0 := #0', 'END DEFINE', 'DEFINE ZERO <ID> AS', '#0 := 0 ;', '#1 := #0 ;',
+                     '$0 := #1 END DEFINE', 'DEFINE NOP', 'AS q := q', 'END DEFINE']
+            for s in ('x := 7 ; SAVE x AROUND ZERO y END', 'ZERO a ; SAVE a AROUND ZERO a END ; ZERO a', 'SAVE a AROUND SAVE b AROUND NOP END END', 'ZERO a ;\nZERO b\n; NOP'):
+                add('hygiene_multiline', multi, s, list(range(1, 8)))
             # temporaries on equal line numbers in several files, file names with ':' '_(M' ')' and digits
             loops = ['DEFINE PRIO 10 ping AS pong END DEFINE\nDEFINE PRIO 5 pong AS ping END DEFINE', 'DEFINE PRIO 7 nop AS x END DEFINE\nDEFINE grow AS grow grow END DEFINE',
                      'DEFINE PRIO 3 a AS b END DEFINE\nDEFINE PRIO 2 b AS c END DEFINE\nDEFINE PRIO 1 c AS a END DEFINE', 'DEFINE grow AS grow grow END DEFINE', 'DEFINE ping AS pong END DEFINE\nDEFINE pong AS ping END DEFINE', 'DEFINE one AS two END DEFINE\nDEFINE two AS three END DEFINE']
@@ -486,7 +491,8 @@ def explore(ctx, res, replay=None):
                             res.violations.append(dict(case, what='shared', budget=b, detail='temporaries of two different macros (definitions %d and %d) both became %r' % (owner[nm_], o_, nm_)))
                             break
                         owner[nm_] = o_
-            prev = None
+            # budget 0 is the extracted stream itself (no pass taken), so the step of pass 0 is examined too
+            prev = (0, [t[3] for t in xtoks if t[0] == 1 and t[3].startswith('23')], xtoks) if budgets and budgets[0] == 1 else None
             for b in budgets:
                 names = [t[3] for t in ap[b][0] if t[0] == 1 and t[3].startswith('23')]
                 if prev is not None and b == prev[0] + 1:
@@ -510,6 +516,17 @@ def explore(ctx, res, replay=None):
                     if clash:
                         res.violations.append(dict(case, what='fresh', budget=b, detail='pass %d introduced temporary %r, which already names a temporary of an earlier step' % (
                             b - 1, vlib.unhex_s(sorted(clash)[0]))))
+                    # equal n within the step: the names this step introduces for the '#n' tokens of one file of the body are
+                    # one name per n (the body of a macro can be cut over included files; tokens are grouped by their file)
+                    groups = {}
+                    for t_ in ap[b][0][pre:len(B) - suf]:
+                        if t_[0] == 1 and t_[3] in fresh_names:
+                            groups.setdefault((vlib.unhex_s(t_[3]).split(':')[0], t_[1]), set()).add(t_[3])
+                    for (n_, f_), g_ in sorted(groups.items()):
+                        if len(g_) > 1:
+                            res.violations.append(dict(case, what='same', budget=b, detail='pass %d turned the temporary %s of one macro body into different variables: %s' % (
+                                b - 1, n_, ', '.join(sorted(vlib.unhex_s(x) for x in g_)))))
+                            break
                     for nm in set(after):
                         s2 = vlib.unhex_s(nm)
                         if re.match(r'^[A-Za-z_][A-Za-z0-9_]*$', s2):
